@@ -260,8 +260,13 @@ def run(spec, ctx):
             problems.append(f"bookkeeping after the sweep: id index keeps {idx - desc_nodes} entries of dead instances")
         if rel or edges:
             problems.append(f"bookkeeping after the sweep: {rel} relation-index pairs / {edges} edges of dead instances")
-    except AttributeError:
-        C["bookkeeping_audit_skipped_no_internals"] += 1
+    except Exception as e:
+        # internals organised differently: fall back to the generic container sizes (must all be empty of instances)
+        C["bookkeeping_audit_skipped_internals_differ:" + type(e).__name__] += 1
+        sizes = discover_containers()
+        left_over = {k: v for k, v in sizes.items() if k.startswith("SymbolGraph.") and v}
+        if left_over:
+            problems.append(f"bookkeeping after the sweep (generic sizes): {left_over}")
     # ---- 3. growth of krrood-held containers over k, 2k, 4k iterations
     k = spec["k"]
 
